@@ -136,6 +136,77 @@ theorem setContains_setDelete (m : List (String × List String)) (k x k2 x2 : St
         rw [alookup_aset_other _ _ _ _ hk]
         simp [hk]
 
+/-! ### association lists without duplicate keys -/
+
+def NodupKeys {α : Type} : List (String × α) → Prop
+  | [] => True
+  | kv :: r => alookup kv.1 r = none ∧ NodupKeys r
+
+theorem nodupKeys_aset {α : Type} (k : String) (v : α) (l : List (String × α)) (h : NodupKeys l) :
+    NodupKeys (aset k v l) := by
+  induction l with
+  | nil => exact ⟨rfl, trivial⟩
+  | cons hd t ih =>
+    obtain ⟨k', v'⟩ := hd
+    unfold aset
+    by_cases hk : k' = k
+    · subst hk
+      simp only [if_true]
+      exact ⟨h.1, h.2⟩
+    · simp only [hk, if_false]
+      refine ⟨?_, ih h.2⟩
+      show alookup k' (aset k v t) = none
+      rw [alookup_aset_other _ _ _ _ hk]
+      exact h.1
+
+theorem nodupKeys_aerase {α : Type} (k : String) (l : List (String × α)) (h : NodupKeys l) :
+    NodupKeys (aerase k l) := by
+  induction l with
+  | nil => exact trivial
+  | cons hd t ih =>
+    obtain ⟨k', v'⟩ := hd
+    unfold aerase
+    by_cases hk : k' = k
+    · simp only [hk, if_true]
+      exact ih h.2
+    · simp only [hk, if_false]
+      refine ⟨?_, ih h.2⟩
+      show alookup k' (aerase k t) = none
+      rw [alookup_aerase_other _ _ _ hk]
+      exact h.1
+
+theorem alookup_of_mem_nodupKeys {α : Type} (l : List (String × α)) (k : String) (v : α)
+    (h : NodupKeys l) (hm : (k, v) ∈ l) : alookup k l = some v := by
+  induction l with
+  | nil => cases hm
+  | cons hd t ih =>
+    obtain ⟨k', v'⟩ := hd
+    cases List.mem_cons.mp hm with
+    | inl he =>
+      simp only [Prod.mk.injEq] at he
+      simp [alookup, he.1, he.2]
+    | inr ht =>
+      have := ih h.2 ht
+      by_cases hk : k' = k
+      · subst hk
+        have h1 : alookup k' t = none := h.1
+        rw [h1] at this; cases this
+      · simp [alookup, hk, this]
+
+theorem mem_of_alookup {α : Type} (l : List (String × α)) (k : String) (v : α)
+    (h : alookup k l = some v) : (k, v) ∈ l := by
+  induction l with
+  | nil => cases h
+  | cons hd t ih =>
+    obtain ⟨k', v'⟩ := hd
+    by_cases hk : k' = k
+    · subst hk
+      simp only [alookup, if_true, Option.some.injEq] at h
+      subst h
+      simp
+    · simp only [alookup, hk, if_false] at h
+      exact List.mem_cons_of_mem _ (ih h)
+
 /-! ### the endpoint slice cache -/
 
 /-- entry of one slice in the endpoint slice cache -/
@@ -228,5 +299,45 @@ theorem alookup_cacheDelete_other (c : SliceCache) (host slice host2 : String)
 theorem cacheGet_congr (c c' : SliceCache) (h : String) (e : alookup h c' = alookup h c) :
     cacheGet c' h = cacheGet c h := by
   unfold cacheGet; rw [e]
+
+theorem nodupKeys_cacheUpdate (c : SliceCache) (host slice h : String) (eps : List IEp) (per : List (String × List IEp))
+    (hn : ∀ per, alookup h c = some per → NodupKeys per)
+    (hl : alookup h (cacheUpdate c host slice eps) = some per) : NodupKeys per := by
+  by_cases hh : h = host
+  · subst hh
+    unfold cacheUpdate at hl
+    rw [alookup_aset_same] at hl
+    simp only [Option.some.injEq] at hl
+    subst hl
+    apply nodupKeys_aset
+    have hbase : NodupKeys ((alookup h c).getD []) := by
+      cases hc : alookup h c with
+      | none => exact trivial
+      | some p => exact hn p hc
+    split
+    · exact nodupKeys_aerase _ _ hbase
+    · exact hbase
+  · rw [alookup_cacheUpdate_other _ _ _ _ _ hh] at hl
+    exact hn per hl
+
+theorem nodupKeys_cacheDelete (c : SliceCache) (host slice h : String) (per : List (String × List IEp))
+    (hn : ∀ per, alookup h c = some per → NodupKeys per)
+    (hl : alookup h (cacheDelete c host slice) = some per) : NodupKeys per := by
+  by_cases hh : h = host
+  · subst hh
+    unfold cacheDelete at hl
+    cases hc : alookup h c with
+    | none => rw [hc] at hl; simp only [] at hl; exact hn per (hc ▸ hl)
+    | some p =>
+      rw [hc] at hl
+      simp only [] at hl
+      split at hl
+      · rw [alookup_aerase_same] at hl; cases hl
+      · rw [alookup_aset_same] at hl
+        simp only [Option.some.injEq] at hl
+        subst hl
+        exact nodupKeys_aerase _ _ (hn p hc)
+  · rw [alookup_cacheDelete_other _ _ _ _ hh] at hl
+    exact hn per hl
 
 end IstioModel.C15
